@@ -322,4 +322,534 @@ theorem certified_exact_on_shape (env : Env) (defs : Spec.Defs) (f : Nat) (root 
   · rintro hm ⟨fuel, v, h⟩
     exact C03.cert_rejects_wrong_type f root s d hT hm fuel ⟨v, h⟩
 
+/-! ### the value a struct field ends up with: decided by the entries that bind to it -/
+
+theorem alookup_map_update (name : String) (v : GoVal) (n : String) :
+    ∀ acc : List (String × GoVal),
+      alookup n (acc.map fun (p : String × GoVal) => if p.1 = name then (p.1, v) else p) =
+        if n = name then (alookup n acc).map (fun _ => v) else alookup n acc := by
+  intro acc
+  induction acc with
+  | nil => simp [alookup]
+  | cons q rest ih =>
+    obtain ⟨k, x⟩ := q
+    simp only [List.map_cons]
+    by_cases hk : k = name
+    · subst hk
+      simp only [↓reduceIte, alookup]
+      by_cases hn : n = k
+      · subst hn; simp
+      · simp only [hn, ↓reduceIte]; rw [ih]; simp [hn]
+    · simp only [hk, ↓reduceIte, alookup]
+      by_cases hn : n = k
+      · subst hn; simp [hk]
+      · simp only [hn, ↓reduceIte]; exact ih
+
+/-- some entry of `kvs` binds (by field name) to the field called `name` -/
+def BindsTo (w : Wire) (fs : List Field) (name : String) (kvs : List (String × Json)) : Prop :=
+  ∃ p ∈ kvs, ∃ fld, bindW w fs p.1 = some fld ∧ fld.name = name
+
+/-- **what a field holds after the shadow decode**: if some entry binds to it, a value that every binding entry's
+    decode satisfies `Good`; if none does, what it held before (its zero value) -/
+theorem decodeStruct_field (w : Wire) (env : Env) (fs : List Field) (Good : String → GoVal → Prop) :
+    ∀ (kvs : List (String × Json)) (f : Nat) (acc r : List (String × GoVal)),
+      (∀ p ∈ kvs, ∀ fld, bindW w fs p.1 = some fld → ∀ g v, decode w env g fld.ty p.2 = .ok v → Good fld.name v) →
+      (∀ p ∈ kvs, ∀ fld, bindW w fs p.1 = some fld → (alookup fld.name acc).isSome = true) →
+      decodeStruct w env f fs kvs acc = .ok r →
+      ∀ name, (BindsTo w fs name kvs ∧ ∃ v, alookup name r = some v ∧ Good name v) ∨
+              (¬ BindsTo w fs name kvs ∧ alookup name r = alookup name acc) := by
+  intro kvs
+  induction kvs with
+  | nil =>
+    intro f acc r _ _ h name
+    cases f with
+    | zero => simp [decodeStruct] at h
+    | succ f =>
+      simp only [decodeStruct] at h
+      injection h with h; subst h
+      exact Or.inr ⟨(by rintro ⟨p, hp, _⟩; cases hp), rfl⟩
+  | cons q rest ih =>
+    obtain ⟨k, x⟩ := q
+    intro f acc r hgood hkeys h name
+    cases f with
+    | zero => simp [decodeStruct] at h
+    | succ f =>
+      have hgood' : ∀ p ∈ rest, ∀ fld, bindW w fs p.1 = some fld → ∀ g v, decode w env g fld.ty p.2 = .ok v → Good fld.name v :=
+        fun p hp => hgood p (List.mem_cons_of_mem _ hp)
+      cases hb : bindW w fs k with
+      | none =>
+        have h' : decodeStruct w env f fs rest acc = .ok r := by
+          cases w <;> simp only [bindW] at hb <;> simpa only [decodeStruct, hb] using h
+        have hkeys' : ∀ p ∈ rest, ∀ fld, bindW w fs p.1 = some fld → (alookup fld.name acc).isSome = true :=
+          fun p hp => hkeys p (List.mem_cons_of_mem _ hp)
+        rcases ih f acc r hgood' hkeys' h' name with ⟨⟨p, hp, fld, hbf, hn⟩, hv⟩ | ⟨hnb, he⟩
+        · exact Or.inl ⟨⟨p, List.mem_cons_of_mem _ hp, fld, hbf, hn⟩, hv⟩
+        · refine Or.inr ⟨?_, he⟩
+          rintro ⟨p, hp, fld, hbf, hn⟩
+          rcases List.mem_cons.mp hp with e | e
+          · subst e; rw [hb] at hbf; cases hbf
+          · exact hnb ⟨p, e, fld, hbf, hn⟩
+      | some fld0 =>
+        cases hd : decode w env f fld0.ty x with
+        | error er =>
+          exfalso
+          cases w <;> simp only [bindW] at hb <;> simp [decodeStruct, hb, hd, bind, Except.bind] at h
+        | ok v =>
+          let acc' := acc.map fun (q : String × GoVal) => if q.1 = fld0.name then (q.1, v) else q
+          have h' : decodeStruct w env f fs rest acc' = .ok r := by
+            cases w <;> simp only [bindW] at hb <;> simpa only [decodeStruct, hb, hd, bind, Except.bind] using h
+          have hkeys' : ∀ p ∈ rest, ∀ fld, bindW w fs p.1 = some fld → (alookup fld.name acc').isSome = true := by
+            intro p hp fld hbf
+            have := hkeys p (List.mem_cons_of_mem _ hp) fld hbf
+            show (alookup fld.name (acc.map _)).isSome = true
+            rw [alookup_map_update]
+            by_cases e : fld.name = fld0.name
+            · simp only [e, ↓reduceIte, Option.isSome_map]; rw [← e]; exact this
+            · simp only [e, ↓reduceIte]; exact this
+          have hgv : Good fld0.name v := hgood (k, x) (List.mem_cons_self ..) fld0 hb f v hd
+          rcases ih f acc' r hgood' hkeys' h' name with ⟨⟨p, hp, fld, hbf, hn⟩, hv⟩ | ⟨hnb, he⟩
+          · exact Or.inl ⟨⟨p, List.mem_cons_of_mem _ hp, fld, hbf, hn⟩, hv⟩
+          · by_cases e : name = fld0.name
+            · -- this entry is the last one that binds the field: the value it decoded stays
+              refine Or.inl ⟨⟨(k, x), List.mem_cons_self .., fld0, hb, e.symm⟩, v, ?_, by rw [e]; exact hgv⟩
+              rw [he]
+              show alookup name (acc.map _) = some v
+              rw [alookup_map_update]
+              simp only [e, ↓reduceIte]
+              have := hkeys (k, x) (List.mem_cons_self ..) fld0 hb
+              cases hl : alookup fld0.name acc with
+              | none => rw [hl] at this; cases this
+              | some z => rfl
+            · refine Or.inr ⟨?_, ?_⟩
+              · rintro ⟨p, hp, fld, hbf, hn⟩
+                rcases List.mem_cons.mp hp with e' | e'
+                · subst e'; rw [hb] at hbf; injection hbf with hbf; subst hbf; exact e hn.symm
+                · exact hnb ⟨p, e', fld, hbf, hn⟩
+              · rw [he]
+                show alookup name (acc.map _) = alookup name acc
+                rw [alookup_map_update]; simp [e]
+
+/-! ### numeric members: what a valid number decodes to passes the emitted bound checks -/
+
+theorem valid_num_parts (defs : Spec.Defs) (ps : Schema) (j : Json) (F : Nat) (hr : ps.node.ref = "")
+    (T : String) (ht : ps.node.types = [T]) (hT : T = "integer" ∨ T = "number") (h : Spec.valid F defs ps j = true) :
+    ∃ q, j = .num q ∧ (T = "integer" → q.den = 1) ∧
+      Spec.boundsOK ps.node.minimum ps.node.maximum ps.node.xmin ps.node.xmax q = true := by
+  have hty := valid_scalar defs ps j F hr T ht h
+  cases F with
+  | zero => simp [Spec.valid] at h
+  | succ F =>
+    simp only [Spec.valid, hr, ne_eq, not_true_eq_false, ↓reduceIte, Bool.and_eq_true] at h
+    rcases hT with e | e <;> subst e <;> cases j <;> simp [Spec.hasType] at hty
+    · rename_i q
+      refine ⟨q, rfl, fun _ => hty, ?_⟩
+      have := h.2; simp only [Bool.and_eq_true] at this; exact this.1
+    · rename_i q
+      refine ⟨q, rfl, (fun e => absurd e (by decide)), ?_⟩
+      have := h.2; simp only [Bool.and_eq_true] at this; exact this.1
+
+theorem num_cast_of_den_one (q : Rat) (h : q.den = 1) : ((q.num : Int) : Rat) = q := by
+  have := Rat.num_div_den q
+  rw [h] at this
+  simpa using this
+
+/-- the value a numeric member decodes to passes the check built from its schema's bounds -/
+theorem num_decode_passes (env : Env) (defs : Spec.Defs) (ty : GoTy) (ps : Schema) (nl : Bool) (c : NumCheck)
+    (j : Json) (F g : Nat) (v : GoVal)
+    (hr : ps.node.ref = "") (hb : numBase ty = some (nl, c.roundToInt))
+    (ht : ps.node.types = [if c.roundToInt then "integer" else "number"])
+    (hm : c.mult = none) (hlo : c.lo = ps.node.minimum) (hhi : c.hi = ps.node.maximum)
+    (hxlo : c.xlo = ps.node.xmin) (hxhi : c.xhi = ps.node.xmax) (h1 : c.xlo ≠ .other) (h2 : c.xhi ≠ .other)
+    (hv : Spec.valid F defs ps j = true) (hd : decode .json env g ty j = .ok v) :
+    checkNumeric v nl c = true := by
+  obtain ⟨q, rfl, hden, hbo⟩ := valid_num_parts defs ps j F hr _ ht (by cases c.roundToInt <;> simp) hv
+  rw [← hlo, ← hhi, ← hxlo, ← hxhi] at hbo
+  cases hrt : c.roundToInt with
+  | true =>
+    have hden1 : q.den = 1 := hden (by simp [hrt])
+    have hpass : c.passes q = true := by
+      have := (C05.int_bounds_exact c q.num hrt hm h1 h2).mpr (by rw [num_cast_of_den_one q hden1]; exact hbo)
+      rwa [num_cast_of_den_one q hden1] at this
+    rw [hrt] at hb
+    -- the two integer-typed shapes
+    cases ty with
+    | int k =>
+      cases k <;> simp [numBase] at hb
+      subst hb
+      cases g with
+      | zero => simp [decode] at hd
+      | succ g =>
+        simp only [decode, hden1, ne_eq, not_true_eq_false, ↓reduceIte] at hd
+        split at hd
+        · injection hd with hd; subst hd
+          simp [checkNumeric, derefIf, numOf, NumCheck.accepts, num_cast_of_den_one q hden1, hpass]
+        · cases hd
+    | ptr t =>
+      cases t with
+      | int k =>
+        cases k <;> simp [numBase] at hb
+        subst hb
+        cases g with
+        | zero => simp [decode] at hd
+        | succ g =>
+          have : decode .json env (g + 1) (.ptr (.int .int)) (.num q) = (decode .json env g (.int .int) (.num q)).map .ptrTo := by
+            simp [decode]
+          rw [this] at hd
+          cases g with
+          | zero => simp [decode, Except.map] at hd
+          | succ g =>
+            simp only [decode, hden1, ne_eq, not_true_eq_false, ↓reduceIte] at hd
+            split at hd
+            · simp only [Except.map] at hd
+              injection hd with hd; subst hd
+              simp [checkNumeric, derefIf, numOf, NumCheck.accepts, num_cast_of_den_one q hden1, hpass]
+            · simp [Except.map] at hd
+      | _ => simp [numBase] at hb
+    | _ => simp [numBase] at hb
+  | false =>
+    have hpass : c.passes q = true := (C05.float_bounds_exact c q hrt hm h1 h2).mpr hbo
+    rw [hrt] at hb
+    cases ty with
+    | float64 =>
+      simp [numBase] at hb
+      subst hb
+      cases g with
+      | zero => simp [decode] at hd
+      | succ g =>
+        simp only [decode] at hd
+        injection hd with hd; subst hd
+        simp [checkNumeric, derefIf, numOf, NumCheck.accepts, hpass]
+    | ptr t =>
+      cases t with
+      | float64 =>
+        simp [numBase] at hb
+        subst hb
+        cases g with
+        | zero => simp [decode] at hd
+        | succ g =>
+          have : decode .json env (g + 1) (.ptr .float64) (.num q) = (decode .json env g .float64 (.num q)).map .ptrTo := by
+            simp [decode]
+          rw [this] at hd
+          cases g with
+          | zero => simp [decode, Except.map] at hd
+          | succ g =>
+            simp only [decode, Except.map] at hd
+            injection hd with hd; subst hd
+            simp [checkNumeric, derefIf, numOf, NumCheck.accepts, hpass]
+      | int k => cases k <;> simp [numBase] at hb
+      | _ => simp [numBase] at hb
+    | int k => cases k <;> simp [numBase] at hb
+    | _ => simp [numBase] at hb
+
+/-! ### the certificate with numeric bounds, and the completeness theorem for it -/
+
+theorem zeroFields_lookup (env : Env) :
+    ∀ (fs : List Field) (n : Nat), fs.length ≤ n → (fs.map (·.name)).Nodup → ∀ fld ∈ fs,
+      ∃ g, alookup fld.name (zeroOf.zeroFields env n fs) = some (zeroOf env g fld.ty) := by
+  intro fs
+  induction fs with
+  | nil => intro _ _ _ fld h; cases h
+  | cons a rest ih =>
+    intro n hn hnd fld hfld
+    cases n with
+    | zero => simp at hn
+    | succ n =>
+      simp only [List.map_cons, List.nodup_cons] at hnd
+      simp only [zeroOf.zeroFields, alookup]
+      rcases List.mem_cons.mp hfld with e | e
+      · subst e; exact ⟨n, by simp⟩
+      · have hne : fld.name ≠ a.name := by
+          intro e'; apply hnd.1; rw [← e']; exact List.mem_map.mpr ⟨fld, e, rfl⟩
+        simp only [hne, ↓reduceIte]
+        exact ih n (by simp at hn; omega) hnd.2 fld e
+
+theorem mem_of_bindKey (fs : List Field) (k : String) (fld : Field) (h : bindKey fs k = some fld) : fld ∈ fs := by
+  unfold bindKey at h
+  cases h1 : fs.find? (fun f => f.jsonKey = k) with
+  | some f1 => rw [h1] at h; injection h with h; subst h; exact List.mem_of_find?_eq_some h1
+  | none => rw [h1] at h; exact List.mem_of_find?_eq_some h
+
+theorem eq_of_mem_same_name (fs : List Field) (key : Field → String) (hnd : (fs.map key).Nodup) (a b : Field)
+    (ha : a ∈ fs) (hb : b ∈ fs) (h : key a = key b) : a = b := by
+  induction fs with
+  | nil => cases ha
+  | cons x rest ih =>
+    simp only [List.map_cons, List.nodup_cons] at hnd
+    rcases List.mem_cons.mp ha with e1 | e1 <;> rcases List.mem_cons.mp hb with e2 | e2
+    · rw [e1, e2]
+    · subst e1; exfalso; apply hnd.1; rw [h]; exact List.mem_map.mpr ⟨b, e2, rfl⟩
+    · subst e2; exfalso; apply hnd.1; rw [← h]; exact List.mem_map.mpr ⟨a, e1, rfl⟩
+    · exact ih hnd.2 e1 e2
+
+/-- **C02 / C05, whole documents, completeness with numeric bounds**: for a program `certFull` admits, every document
+    of any size and depth that is valid under the schema — types, required keys AND every minimum / maximum /
+    exclusive bound of every numeric member at every level — and ordinary (`DocOK`) is accepted by the generated code -/
+theorem certFull_accepts (env : Env) (defs : Spec.Defs) :
+    ∀ (f : Nat) (ty : GoTy) (s : Schema), certFull env defs f ty s = true →
+      ∀ (F : Nat) (j : Json), Spec.valid F defs s j = true → DocOK env j → Acc .json env ty j := by
+  intro f
+  induction f with
+  | zero => intro ty s h; simp [certFull] at h
+  | succ f ih =>
+    intro ty s hc F j hv hdoc
+    simp only [certFull] at hc
+    by_cases hr : s.node.ref = ""
+    · simp only [hr, ne_eq, not_true_eq_false, ↓reduceIte] at hc
+      cases ty with
+      | ptr t => exact (acc_ptr_iff env t j).mpr (Or.inr (ih t s hc F j hv hdoc))
+      | named nm =>
+        simp only at hc
+        cases hres : env.resolve 8 nm with
+        | none => simp [hres] at hc
+        | some d =>
+          simp only [hres] at hc
+          cases hbody : d.body with
+          | enum a b c e g => simp [hbody] at hc
+          | «alias» t => simp [hbody] at hc
+          | plain vs m =>
+            cases hty : d.ty with
+            | strct fs =>
+              simp only [hbody, hty, Bool.and_eq_true, beq_iff_eq, Bool.or_eq_true, Bool.not_eq_true', Option.isNone_iff_eq_none,
+                List.isEmpty_iff, List.all_eq_true, decide_eq_true_eq] at hc
+              obtain ⟨⟨⟨⟨⟨⟨⟨⟨⟨⟨⟨⟨⟨⟨⟨hmeth, hmv⟩, _⟩, htypes⟩, _⟩, _⟩, _⟩, _⟩, haddl⟩, hnoaddl⟩, hlen⟩, hndN⟩, hndK⟩, hvs⟩, hfields⟩, hprops⟩ := hc
+              obtain ⟨kvs, rfl⟩ := valid_types_obj defs s j F hr htypes hv
+              obtain ⟨hreq, F', hvp⟩ := valid_obj_parts defs s kvs F hr hv
+              -- what the certificate says about one declared property
+              have hprop : ∀ k ps, alookup k s.node.props = some ps →
+                  ∃ fld, bindKey fs k = some fld ∧ fld.jsonKey = k ∧ certFull env defs f fld.ty ps = true := by
+                intro k ps hl
+                have hp' := hprops (k, ps) (alookup_mem k ps s.node.props hl)
+                cases hb : bindKey fs k with
+                | none => simp [hb] at hp'
+                | some fld => simp only [hb, Bool.and_eq_true, beq_iff_eq] at hp'; exact ⟨fld, rfl, hp'.1, hp'.2⟩
+              -- an entry that binds is a declared property, bound to ITS field
+              have hbound : ∀ p ∈ kvs, ∀ fld, bindKey fs p.1 = some fld →
+                  ∃ ps, alookup p.1 s.node.props = some ps ∧ fld.jsonKey = p.1 ∧ certFull env defs f fld.ty ps = true ∧
+                    ∃ F'', Spec.valid F'' defs ps p.2 = true := by
+                intro p hp fld hb
+                cases hl : alookup p.1 s.node.props with
+                | some ps =>
+                  obtain ⟨fld', hb', hk', hcs⟩ := hprop p.1 ps hl
+                  rw [hb] at hb'; injection hb' with hb'; subst hb'
+                  obtain ⟨F'', hvv⟩ := validProps_mem defs s.node.props s.node.addl kvs kvs F' hvp p hp ps hl
+                  exact ⟨ps, rfl, hk', hcs, F'', hvv⟩
+                | none =>
+                  exfalso
+                  have hk : ∀ fl ∈ fs, fl.jsonKey ≠ p.1 := by
+                    intro fl hfl e
+                    have := hfields fl hfl
+                    have hin : p.1 ∈ akeys s.node.props := by simpa [e] using this
+                    exact (alookup_none_iff_not_mem p.1 s.node.props).mp hl hin
+                  have hfold : ∀ fl ∈ fs, foldKey fl.jsonKey = foldKey p.1 → fl.jsonKey = p.1 := by
+                    intro fl hfl e
+                    exact hdoc.keys p.1 (.here kvs (by simp only [akeys, List.mem_map]; exact ⟨p, hp, rfl⟩)) nm d fs fl hres hty hfl e
+                  rw [bindKey_none fs p.1 hfold hk] at hb; cases hb
+              have hentries : ∀ p ∈ kvs, ∀ fld, bindW .json fs p.1 = some fld → Acc .json env fld.ty p.2 := by
+                intro p hp fld hb
+                obtain ⟨ps, _, _, hcs, F'', hvv⟩ := hbound p hp fld hb
+                exact ih fld.ty ps hcs F'' p.2 hvv (hdoc.ofMember p hp)
+              obtain ⟨f0, v0, hdec⟩ := (acc_struct_iff .json env fs kvs).mpr hentries
+              rw [acc_named_iff env nm d (.obj kvs) hres]
+              cases hm : m with
+              | false =>
+                have hvsE : vs = [] := by rcases hmv with h | h <;> simp_all
+                have : d.hasMethod = false := by rw [hmeth, hm]
+                simp only [this, Bool.false_eq_true, ↓reduceIte, hty, GoTy.isFmt, true_and]
+                exact ⟨f0, v0, hdec⟩
+              | true =>
+                have : d.hasMethod = true := by rw [hmeth, hm]
+                simp only [this, ↓reduceIte]
+                -- the decoded struct value
+                obtain ⟨f1, rfl⟩ : ∃ f1, f0 = f1 + 1 := by
+                  cases f0 with
+                  | zero => simp [decode] at hdec
+                  | succ f1 => exact ⟨f1, rfl⟩
+                have hdecS : decode .json env (f1 + 1) (.strct fs) (.obj kvs) =
+                    (decodeStruct .json env f1 fs kvs (zeroOf.zeroFields env 32 fs)).map .strct := by simp [decode]
+                rw [hdecS] at hdec
+                cases hr0 : decodeStruct .json env f1 fs kvs (zeroOf.zeroFields env 32 fs) with
+                | error e => rw [hr0] at hdec; cases hdec
+                | ok r =>
+                  rw [hr0] at hdec
+                  have hv0 : v0 = .strct r := by simp only [Except.map] at hdec; injection hdec with h; exact h.symm
+                  subst hv0
+                  -- the field lemma, with "every numeric validator on this field passes" as the predicate
+                  let Good : String → GoVal → Prop := fun name v => ∀ nl c, Validator.numeric name nl c ∈ vs → checkNumeric v nl c = true
+                  have hjust : ∀ field nl c, Validator.numeric field nl c ∈ vs → field ≠ "" ∧ numJustified fs s field nl c = true := by
+                    intro field nl c hin
+                    have := hvs _ hin
+                    simp only [Bool.and_eq_true, bne_iff_ne, ne_eq] at this
+                    exact this
+                  have hgoodE : ∀ p ∈ kvs, ∀ fld, bindW .json fs p.1 = some fld → ∀ g v, decode .json env g fld.ty p.2 = .ok v → Good fld.name v := by
+                    intro p hp fld hb g v hd nl c hin
+                    obtain ⟨ps, hl, hk, _, F'', hvv⟩ := hbound p hp fld hb
+                    obtain ⟨_, hj⟩ := hjust fld.name nl c hin
+                    unfold numJustified at hj
+                    cases hfind : fs.find? (fun fl => fl.name = fld.name) with
+                    | none => simp [hfind] at hj
+                    | some fl =>
+                      have hflmem := List.mem_of_find?_eq_some hfind
+                      have hfln : fl.name = fld.name := by simpa using List.find?_some hfind
+                      have hflEq : fl = fld := eq_of_mem_same_name fs (·.name) hndN fl fld hflmem (mem_of_bindKey fs p.1 fld hb) hfln
+                      subst hflEq
+                      simp only [hfind, hk, hl, Bool.and_eq_true, beq_iff_eq, decide_eq_true_eq, Option.isNone_iff_eq_none, Bool.or_eq_true] at hj
+                      obtain ⟨⟨⟨⟨⟨⟨⟨⟨⟨⟨hpr, hnb⟩, hpt⟩, hmu⟩, hlo⟩, hhi⟩, hxlo⟩, hxhi⟩, hx1⟩, hx2⟩, _⟩ := hj
+                      exact num_decode_passes env defs fl.ty ps nl c p.2 F'' g v hpr hnb hpt hmu hlo hhi hxlo hxhi hx1 hx2 hvv hd
+                  have hkeysE : ∀ p ∈ kvs, ∀ fld, bindW .json fs p.1 = some fld → (alookup fld.name (zeroOf.zeroFields env 32 fs)).isSome = true := by
+                    intro p hp fld hb
+                    obtain ⟨g, hg⟩ := zeroFields_lookup env fs 32 (by omega) hndN fld (mem_of_bindKey fs p.1 fld hb)
+                    rw [hg]; rfl
+                  have hfield := decodeStruct_field .json env fs Good kvs f1 _ r hgoodE hkeysE hr0
+                  -- all after-validators pass
+                  have hafter : ∀ x ∈ vs, afterPasses (.strct r) x = true := by
+                    intro x hx
+                    cases x with
+                    | numeric field nl c =>
+                      obtain ⟨hfne, hj⟩ := hjust field nl c hx
+                      show checkNumeric (fieldOf (.strct r) field) nl c = true
+                      simp only [fieldOf, hfne, ↓reduceIte]
+                      rcases hfield field with ⟨_, v, hlv, hg⟩ | ⟨hnb, he⟩
+                      · rw [hlv]; exact hg nl c hx
+                      · -- no entry binds the field: it is a nil pointer (a non-nillable one is required, hence bound)
+                        unfold numJustified at hj
+                        cases hfind : fs.find? (fun fl => fl.name = field) with
+                        | none => simp [hfind] at hj
+                        | some fl =>
+                          have hflmem := List.mem_of_find?_eq_some hfind
+                          have hfln : fl.name = field := by simpa using List.find?_some hfind
+                          cases hl : alookup fl.jsonKey s.node.props with
+                          | none => simp [hfind, hl] at hj
+                          | some ps =>
+                            simp only [hfind, hl, Bool.and_eq_true, beq_iff_eq, decide_eq_true_eq, Option.isNone_iff_eq_none, Bool.or_eq_true] at hj
+                            obtain ⟨⟨⟨⟨⟨⟨⟨⟨⟨⟨_, hnb'⟩, _⟩, _⟩, _⟩, _⟩, _⟩, _⟩, _⟩, _⟩, hnlreq⟩ := hj
+                            have hnbase := hnb'
+                            obtain ⟨g, hg⟩ := zeroFields_lookup env fs 32 (by omega) hndN fl hflmem
+                            rw [he, ← hfln, hg]
+                            rcases hnlreq with hnl | hreqk
+                            · subst hnl
+                              -- a nil pointer: the emitted `!= nil &&` guard
+                              cases hfty : fl.ty with
+                              | ptr t => cases g <;> simp [zeroOf, checkNumeric, derefIf, NumCheck.accepts]
+                              | int k => rw [hfty] at hnbase; cases k <;> simp [numBase] at hnbase
+                              | _ => rw [hfty] at hnbase; simp [numBase] at hnbase
+                            · exfalso
+                              rw [List.all_eq_true] at hreq
+                              have hhas := hreq fl.jsonKey (by simpa using hreqk)
+                              simp only [ahas] at hhas
+                              cases hlk : alookup fl.jsonKey kvs with
+                              | none => rw [hlk] at hhas; cases hhas
+                              | some x =>
+                                have hmem := alookup_mem fl.jsonKey x kvs hlk
+                                obtain ⟨fld', hb', hk', _⟩ := hprop fl.jsonKey ps hl
+                                have : fld' = fl := eq_of_mem_same_name fs (·.jsonKey) hndK fld' fl (mem_of_bindKey fs _ fld' hb') hflmem hk'
+                                subst this
+                                exact hnb ⟨(fld'.jsonKey, x), hmem, fld', hb', hfln⟩
+                    | required k => rfl
+                    | _ => have := hvs _ hx; simp at this
+                  let g := max (f1 + 1) (vs.length + 1)
+                  have hdec' : decode .json env g d.ty (.obj kvs) = .ok (.strct r) := by
+                    rw [hty]
+                    exact Proofs.decode_ok_mono .json env _ _ _ (f1 + 1) g (Nat.le_max_left ..) (by rw [hdecS, hr0]; rfl)
+                  refine ⟨g + 1, .strct r, ?_⟩
+                  rw [struct_method_ok_iff .json env d vs m fs kvs g hbody hty hnoaddl
+                    (by have : vs.length + 1 ≤ g := Nat.le_max_right ..; omega)
+                    (by intro v hv'; have := hvs v hv'; cases v <;> simp at this <;> rfl)
+                    (by
+                      intro v hv'
+                      cases v with
+                      | numeric field nl c =>
+                        obtain ⟨_, hj⟩ := hjust field nl c hv'
+                        unfold numJustified at hj
+                        cases hfind : fs.find? (fun fl => fl.name = field) with
+                        | none => simp [hfind] at hj
+                        | some fl =>
+                          cases hl : alookup fl.jsonKey s.node.props with
+                          | none => simp [hfind, hl] at hj
+                          | some ps =>
+                            simp only [hfind, hl, Bool.and_eq_true, Option.isNone_iff_eq_none] at hj
+                            have hmu : c.mult = none := hj.1.1.1.1.1.1.1.2
+                            simp [Checkable, nonDyadicFloat, hmu]
+                      | required k => rfl
+                      | _ => have := hvs _ hv'; simp at this)]
+                  refine ⟨?_, hdec', hafter⟩
+                  intro k hk
+                  have := hvs _ hk
+                  simp only at this
+                  rw [List.all_eq_true] at hreq
+                  exact hreq k (by simpa using this)
+            | _ => simp [hbody, hty] at hc
+      | slice t =>
+        simp only [Bool.and_eq_true, beq_iff_eq] at hc
+        obtain ⟨⟨⟨⟨⟨⟨htypes, _⟩, _⟩, _⟩, _⟩, htn⟩, hit⟩ := hc
+        cases hitems : s.node.items with
+        | none => simp [hitems] at hit
+        | some it =>
+          simp only [hitems] at hit
+          obtain ⟨xs, rfl, F', hve⟩ := valid_arr_parts defs s j F hr htypes it hitems hv
+          rw [acc_slice_iff env t xs (by intro n e; subst e; simp at htn) (by intro e; subst e; simp at htn)]
+          intro x hx
+          obtain ⟨F'', hvx⟩ := validElems_mem defs it xs F' hve x hx
+          exact ih t it hit F'' x hvx (hdoc.ofElem x hx)
+      | string =>
+        have ht : s.node.types = ["string"] := by simpa using hc
+        have := valid_scalar defs s j F hr "string" ht hv
+        cases j <;> simp [Spec.hasType] at this
+        exact (acc_string_iff env _).mpr (Or.inr ⟨_, rfl⟩)
+      | bool =>
+        have ht : s.node.types = ["boolean"] := by simpa using hc
+        have := valid_scalar defs s j F hr "boolean" ht hv
+        cases j <;> simp [Spec.hasType] at this
+        exact (acc_bool_iff env _).mpr (Or.inr ⟨_, rfl⟩)
+      | float64 =>
+        have ht : s.node.types = ["number"] := by simpa using hc
+        have := valid_scalar defs s j F hr "number" ht hv
+        cases j <;> simp [Spec.hasType] at this
+        exact (acc_float_iff env _).mpr (Or.inr ⟨_, rfl⟩)
+      | int k =>
+        cases k <;> simp at hc
+        have ht : s.node.types = ["integer"] := hc
+        have := valid_scalar defs s j F hr "integer" ht hv
+        cases j <;> simp [Spec.hasType] at this
+        rename_i q
+        exact (acc_int_iff env .int _).mpr (Or.inr ⟨q, rfl, this, hdoc.ints q .here this⟩)
+      | iface => simp at hc
+      | strct fs => simp at hc
+      | nullTy => simp at hc
+      | map t => simp at hc
+      | qual a b => simp at hc
+      | custom a b => simp at hc
+      | fmt k => simp at hc
+    · -- a reference: the target's schema decides
+      simp only [ne_eq, hr, not_false_eq_true, ↓reduceIte] at hc
+      cases F with
+      | zero => simp [Spec.valid] at hv
+      | succ F =>
+        simp only [Spec.valid, ne_eq, hr, not_false_eq_true, ↓reduceIte] at hv
+        cases hn : Spec.refName s.node.ref with
+        | none => simp [hn] at hc
+        | some name =>
+          simp only [hn] at hc hv
+          cases hl : alookup name defs with
+          | none => simp [hl] at hc
+          | some t =>
+            simp only [hl] at hc hv
+            exact ih ty t hc F j hv hdoc
+
+
+/-- `certFull` admits ordinary generated programs with bounded numeric members (non-vacuity) -/
+def exEnvN : Env := [
+  { name := "Root", ty := .strct [
+      { name := "Name", jsonName := "name", ty := .string, tags := "", jsonKey := "name", yamlKey := "name", omitEmpty := false },
+      { name := "Age", jsonName := "age", ty := .ptr (.int .int), tags := "", jsonKey := "age", yamlKey := "age", omitEmpty := true },
+      { name := "Ratio", jsonName := "ratio", ty := .float64, tags := "", jsonKey := "ratio", yamlKey := "ratio", omitEmpty := false }],
+    body := .plain [.required "name", .required "ratio",
+      .numeric "Age" true { lo := some 0, hi := some 150, roundToInt := true },
+      .numeric "Ratio" false { lo := some 0, xhi := .num 1 }] true }]
+
+def exSchemaN : Schema := .mk { types := ["object"], required := ["name", "ratio"], props := [
+  ("name", .mk { types := ["string"] }), ("age", .mk { types := ["integer"], minimum := some 0, maximum := some 150 }),
+  ("ratio", .mk { types := ["number"], minimum := some 0, xmax := .num 1 })] }
+
+example : certFull exEnvN [] 4 (.named "Root") exSchemaN = true := by decide
+
 end GJS.Props.C02
